@@ -17,7 +17,7 @@ EXTENDS Integers, Sequences, FiniteSets, TLC, Json
 Slots == <<"user/id", "user/zero", "factory/id", "factory/zero">>
 Classes == {"keyboard", "gamepad"}
 DevTypes == {"Keyboard", "Joystick", "Mouse", "Unknown"}
-JunkKinds == {"none", "broken", "txt", "nested_broken", "foreign", "nested_foreign"}
+JunkKinds == {"none", "broken", "decoder_panic", "txt", "nested_broken", "foreign", "nested_foreign"}
 Dirs == {"factory/gamepad", "factory/keyboard", "user/gamepad", "user/keyboard"}
 
 ClassOfType(t) == CASE t = "Keyboard" -> "keyboard" [] t = "Joystick" -> "gamepad" [] OTHER -> "unsupported"
